@@ -93,8 +93,13 @@ def load_known():
         return json.load(f)
 
 
-def matches(entry_sig: dict, sig: dict) -> bool:
-    return all(sig.get(k) == v for k, v in entry_sig.items())
+def matches(entry_sig: dict, sig: dict, inputs=None) -> bool:
+    """A known finding matches a violation when every key of its signature agrees (a key with value null
+    must be absent from the violation).  An entry with an `inputs` list is pinned to exactly those
+    inputs (hashes computed by the check for its seed-independent stage)."""
+    if not all(sig.get(k) == v for k, v in entry_sig.items()):
+        return False
+    return inputs is None or sig.get("pinned") in inputs
 
 
 def write_replay(pid: str, v: Violation) -> str:
@@ -119,7 +124,7 @@ def finish(pid: str, tier: str, seed: int, stats: Stats, violations: list, t0: f
     for v in violations:
         sig = v.signature()
         for i, e in enumerate(known):
-            if matches(e["signature"], sig):
+            if matches(e["signature"], sig, e.get("inputs")):
                 hit.setdefault(i, []).append(v)
                 break
         else:
